@@ -491,7 +491,8 @@ func genScenario(t *rapid.T) (scenario, slog.Attrs, []any) {
 		g.Vals = genLayoutValue()
 	} else {
 		sc.Msg = genHygieneMsg().Draw(t, "msg")
-		g.Vals = vlib.GenValue(vlib.GenAnyString())
+		// ... and the documentation's sample marshaller (it prints strings through the encoder's AddString)
+		g.Vals = rapid.OneOf(vlib.GenValue(vlib.GenAnyString()), vlib.GenValue(vlib.GenAnyString()), vlib.GenValue(vlib.GenAnyString()), vlib.GenDocUser(vlib.GenAnyString()))
 	}
 	if sc.Sev == slog.AlwaysLevel && strings.Trim(sc.Msg, " \t\r\n") == "" {
 		sc.Msg = "x" + sc.Msg // a blank Print is a bare newline (C02), not a record
